@@ -292,7 +292,14 @@ class EDXMLParserBase(object):
             # produced by the RelaxNG validator.
             for element in self.__root_element.iterfind('{http://edxml.org/edxml}ontology'):
                 if self.__root_element.index(element) <= position:
-                    self.__process_ontology(element)
+                    try:
+                        self.__process_ontology(element)
+                    except EDXMLValidationError:
+                        raise
+                    except Exception:
+                        # The element is invalid, processing it can fail in ways that
+                        # processing a valid element cannot. We report the schema error.
+                        break
 
             # And if we did not identify the problem, we have no choice
             # but throw an exception showing the schema validation error.
